@@ -5,8 +5,8 @@ package vtrace
 // On reports whether hooks are compiled in.
 const On = false
 
-// Begin starts recording for the calling goroutine (no-op without the verif tag).
-func Begin() {}
+// Begin starts recording (no-op without the verif tag).
+func Begin() bool { return false }
 
 // End stops recording and returns the events (always nil without the verif tag).
 func End() []Event { return nil }
